@@ -6,7 +6,7 @@
    on every run).  Outcomes: DOk / DErr / DPanic (todo!, index, over-wide shift) / DUnbounded
    (a loop whose length is not bounded by the input).  The float conversions of the host are
    parameters; nothing here depends on them. *)
-From PV Require Import Base MachineInt VarintParams GenLoops Varint DataModel Schema SchemaConv Dyn JsonOf WireFormat VarintFacts DynFacts DynReenc DynArmDecl GenDynArms DynArms DynCompositeExpected GenDynComposite GenDynHelpers DynArmFacts DynArmTotal.
+From PV Require Import Base MachineInt VarintParams GenLoops Varint DataModel Schema SchemaConv Dyn JsonOf WireFormat VarintFacts DynFacts DynReenc DynSizeDefs DynSize DynArmDecl GenDynArms DynArms DynCompositeExpected GenDynComposite GenDynHelpers DynArmFacts DynArmTotal.
 Open Scope N_scope.
 
 (* decoding never panics, whatever the schema, whatever the bytes; what it hands on to the
@@ -107,6 +107,27 @@ Theorem C18_helpers_are_the_source :
   dynde_fns_matched = [[102; 114; 111; 109; 95; 115; 108; 105; 99; 101; 95; 100; 121; 110]; [114; 105; 103; 104; 116]; [116; 97; 107; 101; 95; 111; 110; 101]].
 Proof. exact dyn_helpers_are_source. Qed.
 
+(* the allocation clause, outside the class of F9: for every schema without a sequence of
+   zero-width elements (dno_zero: exactly the schemas the harness does not classify as F9, op
+   dynbound) and every byte string, from_slice_dyn's loops are never cut off by the input-length
+   guard of the model (they end by themselves or fail: each round consumes at least one byte), and
+   the size of the JSON value built - nodes, string bytes, key bytes - is at most dslope s times the
+   number of bytes consumed plus doffset s, two constants of the schema *)
+Theorem C18_allocation_bounded : forall widen s l, dno_zero s = true -> bytes_ok l ->
+  dyn_de widen s l <> DUnbounded /\
+  forall j rest, dyn_de widen s l = DOk (j, rest) ->
+    exists p, l = p ++ rest /\ jsize j <= dslope s * N.of_nat (length p) + doffset s.
+Proof. exact dyn_alloc_bounded. Qed.
+(* non-vacuity: Vec<Option<(u8, String)>> is in that class, decodes, and meets its bound; the
+   schema of F9's witness is not in it *)
+Example C18_allocation_bounded_example :
+  let s := SSeq (SOption (STuple [SPrim PU8; SPrim PString])) in
+  dno_zero s = true /\ dslope s = 7 /\ doffset s = 1 /\
+  dyn_de (fun b => b) s [2; 1; 7; 2; 104; 105; 0; 9] = DOk (JArr [JArr [JInt 7; JStr [104; 105]]; JNull], [9]) /\
+  jsize (JArr [JArr [JInt 7; JStr [104; 105]]; JNull]) = 7 /\
+  dno_zero (SSeq (SPrim PUnit)) = false.
+Proof. repeat split; vm_compute; reflexivity. Qed.
+
 Print Assumptions C18_decode_total.
 Print Assumptions C18_encode_total.
 Print Assumptions C18_private_reader.
@@ -116,3 +137,4 @@ Print Assumptions C18_decoder_arms_never_panic.
 Print Assumptions C18_decoder_arms_are_the_model.
 Print Assumptions C18_composite_arms_are_the_source.
 Print Assumptions C18_helpers_are_the_source.
+Print Assumptions C18_allocation_bounded.
